@@ -1,15 +1,17 @@
 #!/bin/bash
 # run every seeded change under /verif/seeded (or /tmp/seed/out) against the check of its property; one line per change
 SRC=${1:-/verif/seeded}
+FILTER=${2:-.}   # regular expression on the change id, e.g. '-[34]$'
 for d in $(ls -d $SRC/*/ | sort); do
   id=$(basename $d)
+  echo "$id" | grep -Eq -e "$FILTER" || continue
   prop=${id%%-*}
   patch=$d/patch.diff
   [ -f $patch ] || continue
   cd /repo && git apply $patch 2>/dev/null || { echo "$id apply-failed"; continue; }
   cd /verif && cp evidence/$prop.json /tmp/.ev_$prop.json 2>/dev/null
   out=$(./check $prop --tier quick 2>&1); code=$?
-  git -C /repo checkout -- .
+  git -C /repo checkout -- . ; git -C /repo clean -fdq src
   cp /tmp/.ev_$prop.json evidence/$prop.json 2>/dev/null; rm -f /tmp/.ev_$prop.json
   v=$(echo "$out" | grep -c "^VIOLATION")
   nf=$(echo "$out" | grep -c "no-failing-input-found")
